@@ -227,6 +227,7 @@ type srvRun struct {
 	rounds []roundObs
 	cancel context.CancelFunc
 	maxBusy time.Duration
+	repoBase int // goroutines running code of the tree under test when the server is idle
 	noise   int // ARP traffic that is no answer to a probe: 1 runt frames, 2 answers about other hosts, 3 probes by others for the same address
 }
 
@@ -289,6 +290,7 @@ func startServer(t *testing.T, cfg srvCfg) (*srvRun, error) {
 	synctest.Wait()
 	// the idle goroutine count of this process: goroutines outside the bubble that are just going away (left over from
 	// earlier tests, a finalizer) must not be counted, or "back at the idle count" would come true while a handler still runs
+	s.repoBase = repoGoroutines()
 	s.base = runtime.NumGoroutine()
 	for stable := 0; stable < 30; {
 		runtime.Gosched()
@@ -349,12 +351,21 @@ func (s *srvRun) round(pkt []byte, arp []arpResp) roundObs {
 // the database lock across its ARP probes; reading the table then would block this goroutine on a mutex, which the
 // virtual clock does not count as waiting: the bubble would stand still for ever (seen twice in thorough sweeps, with
 // the idle count spoilt as described in startServer).  So never return while an ARP receive socket is open.
+//
+// What decides is the number of goroutines running code of the tree under test (read off a stack dump): two for an idle
+// server (Run and its closer).  The process-wide count is only a cheap first look: under load it was off (20 checks run at
+// once: goroutines of the runtime or of earlier tests came and went, the round ended during a handler's 50 ms reply delay
+// and the reply was booked on the next round).
 func waitQuiet(s *srvRun) {
 	deadline := time.Now().Add(s.maxBusy)
-	for {
+	for i := 0; ; i++ {
 		synctest.Wait()
-		if s.seg.Listeners(rsocks.KindARP) == 0 && (runtime.NumGoroutine() <= s.base || time.Now().After(deadline)) {
+		if s.seg.Listeners(rsocks.KindARP) == 0 &&
+			(runtime.NumGoroutine() <= s.base || i%64 == 63 || time.Now().After(deadline)) && repoGoroutines() <= s.repoBase {
 			break
+		}
+		if time.Now().After(deadline.Add(time.Minute)) && s.seg.Listeners(rsocks.KindARP) == 0 {
+			break // something of the server never ends (a leak is C19's business): go on
 		}
 		time.Sleep(time.Millisecond)
 	}
